@@ -60,6 +60,16 @@ Theorem C07_proof_bytes : forall O_der O_rfc O_verify registered nonce body,
 Proof. exact prove_to_rv_sound. Qed.
 Print Assumptions C07_proof_bytes.
 
+(* conversely the rendezvous server demands nothing else of the token *)
+Theorem C07_proof_bytes_complete : forall O_der O_rfc O_verify registered nonce body prot unprot pl sig eat guid key,
+  open_token O_der O_rfc body = Some (prot, unprot, pl, sig, eat) ->
+  claim 10 eat = Some (VBytes nonce) -> claim 256 eat = Some (VBytes (byte_of_N 1 :: guid)) -> length guid = 16%nat ->
+  registered guid = Some key ->
+  sign1_verify O_der O_rfc O_verify TRaw TBytes key prot (Some (VRaw pl)) None sig (VBytes []) = Ok true ->
+  prove_to_rv_ok O_der O_rfc O_verify registered nonce body = true.
+Proof. exact prove_to_rv_complete. Qed.
+Print Assumptions C07_proof_bytes_complete.
+
 Example C07_run :
   snd (run [] [mkreq 30 TInvalid true false false; mkreq 32 (TSess 0) false false false;
                mkreq 30 TInvalid true false false; mkreq 32 (TSess 1) true false false; mkreq 32 (TSess 1) true false false]) =
